@@ -100,5 +100,10 @@ func run(c *core.Ctx) {
 	c.Set("frames_opened_by_reference_decryptor", st.FramesOpenedByRef)
 	c.Set("real_api_calls", st.RealCalls)
 	c.Set("exhaustive", true)
+	if c.Thorough() {
+		chanreplay.ValidateRepoTestTraces(c, "./stream/", "./message/")
+	} else {
+		chanreplay.ValidateRepoTestTraces(c, "./stream/")
+	}
 	c.Set("rule", "behaviours = every sender script (<=N msgs x <=F frames) x every single adversary action at every wire position, enumerated by TLC from Gen_SecureChannel (mode C02); each is replayed against two real keyed streams under every receive API and payload size plan; abstract classes (flipped field, cut position, forged length class) expand to concrete bits/positions (all in thorough, seeded sample in quick); non-trivial = has at least one send and one receive")
 }
